@@ -13,7 +13,7 @@ func init() {
 		ID: "C19", Level: "model_checking", Engine: "E4-HB", DesignRef: "DESIGN.md §4 C19, §3.5",
 		Technique: "happens-before (vector clock) race monitor evaluated as an invariant on every schedule of a stateless model-checking search (iterative preemption bounding) of the instrumented real Store",
 		LevelText: "the instrumented build announces every plain read/write of the fields of the store's struct types (entries, shards, store, policy lists, wheel, sketch, singleflight records) and every access to the shard maps; the scheduler runtime derives happens-before from every lock, atomic, channel, pool, WaitGroup, spawn and cancellation the code performs; on every explored schedule of 3 clients mixing Get/Set/SetWithTTL/Delete/Range/Len/EstimatedSize/Stats/Wait/SaveCache/Close/loading Get with expiry ticks and evictions (removal listener installed, entry pool off), on plain, loading and hybrid stores (real demotion worker, promotion, DeleteWithSecondary, Close of a hybrid store) no two conflicting accesses may be unordered; right level because the Go race detector only sees the one interleaving a test run happens to take, and is blind under a cooperative scheduler",
-		LevelNote: "trusted: instrumenter probe placement (an under-approximation: conditionally evaluated operands, operands of multi-call statements and array/slice elements are not probed) and the vrt happens-before edges (joins: more ordering than the memory model at worst); a free-running -race pass over plain-build drivers is the cross-check for untracked locations; bounded: 3 clients x <=3 calls, preemptions <=2 (thorough 3)",
+		LevelNote: "trusted: instrumenter probe placement (an under-approximation: conditionally evaluated operands and operands of multi-call statements are not probed; slice ELEMENTS are probed for three fields only - PolicyBuffers.Returned, CountMinSketch.Table, Store.writeBuffer, the backing array counting as one location - other arrays/slices are not) and the vrt happens-before edges (joins: more ordering than the memory model at worst); a free-running -race pass over plain-build drivers is the cross-check for untracked locations; bounded: 3 clients x <=3 calls, preemptions <=2 (thorough 3)",
 		Rule:      "stateless DFS with iterative preemption bound; invariant = no unordered conflicting pair on any tracked location; outcome = per-call results + final map",
 		Assume:    []string{"race-free programs have sequentially consistent semantics, so exploring SC interleavings is exact once the invariant holds", "entry pool off (the README documents races with the pool on)"},
 		Quick: []Scenario{
